@@ -76,3 +76,17 @@ def strat_from_named(items_by_player):
     for pl in (0, 1):
         out[pl + 1] = {it[1]: {a: b2f(p) for a, p in it[3]} for it in items_by_player[pl]["items"]}
     return out
+
+
+def payoff_mass(t):
+    """sum over terminals of (chance reach) x |payoff|: the magnitude of the numbers an evaluation adds up
+    (a rare outcome with a huge payoff counts with its probability, not with its size)"""
+    def go(n, reach):
+        if "t" in n:
+            return reach * abs(b2f(n["t"]))
+        if "o" in n:
+            ws = [b2f(w) for w, _ in n["o"]]
+            tot = sum(ws)
+            return sum(go(c, reach * w / tot) for w, (_, c) in zip(ws, n["o"]))
+        return max(go(c, reach) for _, c in n["a"]) if n["a"] else 0.0
+    return go(t, 1.0)
